@@ -668,9 +668,18 @@ func spRun(t *testing.T, tr *vpTrace, tid int, b *spBehaviour) {
 	})
 }
 
+// spCollide: with VERIF_COLLIDE=n the destination maps are keyed by hash mod n (n = 1: every prefix of a
+// table shares one bucket), so that the collision chains of the table are walked by every step
+func spCollide() {
+	if n, _ := strconv.ParseUint(os.Getenv("VERIF_COLLIDE"), 10, 64); n > 0 {
+		table.VerifKeyHook = func(h uint64) uint64 { return h % n }
+	}
+}
+
 func TestVerifC01(t *testing.T) {
 	tr := vpOpenTrace(t)
 	defer tr.Close()
+	spCollide()
 	tid := 0
 	vpReadLines(t, "VERIF_IN", func(line []byte) {
 		var b spBehaviour
@@ -810,18 +819,22 @@ func spRunFree(t *testing.T, tr *vpTrace, tid int, b *spBehaviour, seed int64) {
 	plan := spFreePlan(b, tid)
 	rows := plan.rows
 	var final map[string]any
-	spWD.begin(tid, rows)
+	// the rows that describe the schedule are on disk before it runs: a behaviour that kills the process
+	// (fatal error: concurrent map writes) or never ends (watchdog) leaves a trace without Health record
+	for _, r := range rows {
+		tr.Emit(r)
+	}
+	tr.Flush()
+	spWD.begin(tid)
 	defer spWD.end()
 	// written even when the testing package ends this (sub)test with FailNow/Goexit
 	defer func() {
 		health["races"] = spRaceReports() - racesBefore
-		for _, r := range rows {
-			tr.Emit(r)
-		}
 		if final != nil {
 			tr.Emit(final)
 		}
 		tr.Emit(health)
+		tr.Flush()
 	}()
 	func() {
 		defer func() {
@@ -901,7 +914,7 @@ func spRunFree(t *testing.T, tr *vpTrace, tid int, b *spBehaviour, seed int64) {
 			if policy && !chaos {
 				w.softReset("all", api.ResetPeerRequest_DIRECTION_BOTH)
 				synctest.Wait()
-				rows = append(rows, map[string]any{"ev": "ResetBoth", "p": "all"})
+				tr.Emit(map[string]any{"ev": "ResetBoth", "p": "all"})
 			}
 			if !chaos {
 				final = map[string]any{"ev": "Settle", "obs": w.observe()}
@@ -1016,15 +1029,14 @@ type spWatchdog struct {
 	mu       sync.Mutex
 	active   bool
 	tid      int
-	rows     []map[string]any
 	tr       *vpTrace
 }
 
 var spWD spWatchdog
 
-func (wd *spWatchdog) begin(tid int, rows []map[string]any) {
+func (wd *spWatchdog) begin(tid int) {
 	wd.mu.Lock()
-	wd.active, wd.tid, wd.rows = true, tid, rows
+	wd.active, wd.tid = true, tid
 	wd.mu.Unlock()
 	wd.progress.Add(1)
 }
@@ -1140,9 +1152,6 @@ func (wd *spWatchdog) run(stop <-chan struct{}) {
 			continue
 		}
 		wd.mu.Lock()
-		for _, r := range wd.rows {
-			wd.tr.Emit(r)
-		}
 		wd.tr.Emit(map[string]any{"ev": "Health", "races": 0, "leak": false, "deadlock": true, "stuck": 0,
 			"panic": "lock deadlock (wall-clock watchdog): speaker goroutines wait for locks at " + strings.Join(sites, "; ")})
 		wd.tr.Close()
@@ -1155,6 +1164,7 @@ func TestVerifFree(t *testing.T) {
 	tr := vpOpenTrace(t)
 	defer tr.Close()
 	spWD.tr = tr
+	spCollide()
 	stopWD := make(chan struct{})
 	defer close(stopWD)
 	go spWD.run(stopWD)
